@@ -236,11 +236,17 @@ def summarize(project: Project, fi: FuncInfo) -> Summary:
                     s.module_writes.append((q, n))
                 elif isinstance(n, ast.AugAssign):
                     # x += ... on a name bound to a container mutates in place
-                    if is_containerish(fi, t.id):
+                    if is_containerish(fi, t.id) or aliases_module_container(project, facts, t):
                         record_mutation(t, n)
         # ---- calls
         if isinstance(n, ast.Call):
             q = sc.resolve_call(n)
+            if q is not None and isinstance(n.func, ast.Attribute) and q not in project.funcs and io_kind_of(q) is None:
+                rc = receiver_ctor(sc, fi, n.func.value)
+                if rc and io_kind_of(f"{rc}.{n.func.attr}"):
+                    if not (rc.startswith("logging.") and n.func.attr in ("debug", "info", "getChild", "setLevel", "isEnabledFor", "addHandler", "log")):
+                        s.io.append(IOSite(io_kind_of(f"{rc}.{n.func.attr}"), n, f"{rc}().{n.func.attr}"))
+                        continue
             if q is None:
                 if isinstance(n.func, ast.Attribute):
                     meth = n.func.attr
@@ -284,6 +290,18 @@ def summarize(project: Project, fi: FuncInfo) -> Summary:
     return s
 
 
+def aliases_module_container(project: Project, facts: "FunctionFacts", name_node: ast.Name) -> bool:
+    """The name may be bound to a module-level list/dict/set (so `name += x` extends that shared object)."""
+    for o in facts.origin(name_node):
+        if o[0] in ("module", "module-part"):
+            mod, _, nm = o[1].rpartition(".")
+            m = project.modules.get(mod)
+            v = m.top_assigns.get(nm) if m else None
+            if isinstance(v, (ast.List, ast.Dict, ast.Set, ast.ListComp, ast.DictComp, ast.SetComp)) or (isinstance(v, ast.Call) and isinstance(v.func, ast.Name) and v.func.id in ("list", "dict", "set", "defaultdict", "deque")):
+                return True
+    return False
+
+
 def is_containerish(fi: FuncInfo, name: str) -> bool:
     """Is a local name used as a container (subscripted / iterated / len() / container annotation)?"""
     a = fi.node.args
@@ -311,6 +329,15 @@ def receiver_ctor(sc: Scope, fi: FuncInfo, recv: ast.AST) -> Optional[str]:
     """Dotted constructor the receiver object was built with (``console = Console()``)."""
     if isinstance(recv, ast.Call):
         return sc.resolve(recv.func)
+    if isinstance(recv, ast.Name) and recv.id not in sc.locals:
+        # a module-level object: logger = logging.getLogger(__name__)
+        q = sc.resolve_name(recv.id)
+        if q:
+            mod, _, nm = q.rpartition(".")
+            m = sc.project.modules.get(mod)
+            v = m.top_assigns.get(nm) if m else None
+            if isinstance(v, ast.Call):
+                return Scope(sc.project, None, m).resolve(v.func)
     if isinstance(recv, ast.Name):
         ctors = set()
         for n in own_nodes(fi.node):
